@@ -142,6 +142,7 @@ Proof.
   - intros s1 H1. destruct (I_ur _ H1) as (a1 & R1 & R2 & R3). exists a1. split; [apply Hsl; auto|]. split; auto.
   - intros s1 H1. destruct (I_dg _ H1) as (a1 & R1 & R). exists a1. split; [apply Hsl; auto|auto].
   - intros s1 a1 H1 K1. apply Hsl in H1. eauto.
+  - intros s1 a1 l1 H1 HX1 K1. apply Hsl in H1. eauto.
 Qed.
 
 (* ---------------------------------------------------------------- one list and one slot change together *)
@@ -173,9 +174,11 @@ Lemma VamInvU_region_update c v U X X' lr l0 l' s a' :
   (forall a1, slot_is v s a1 -> a_kind a1 = 1 -> a_lref a1 = lr) ->
   (In s X' -> forall b' rg, In b' (bl_blocks l') -> In rg (meta_live (bk_meta b')) -> rg_tag rg <> Some s) ->
   (a_allocated a' = true -> Bits.pow2 (a_align a')) ->
+  bl_minalign l' = bl_minalign l0 ->
+  (a_allocated a' = true -> forall l1, get_blist (set_alloc (set_blist v lr l') s a') (a_lref a') = Some l1 -> bl_minalign l1 <= a_align a') ->
   VamInvU c (set_alloc (set_blist v lr l') s a') U X'.
 Proof.
-  intros HI H0 Hwf Hty Hfw Hbw Hs Hold Hnew Hkeep Hreg Hself HX1 HX2 HX3 Hlr HX5 Hpow.
+  intros HI H0 Hwf Hty Hfw Hbw Hs Hold Hnew Hkeep Hreg Hself HX1 HX2 HX3 Hlr HX5 Hpow Hmal Hmas.
   inv_fields HI.
   set (v1 := set_blist v lr l'). set (v' := set_alloc v1 s a').
   assert (Hcases := get_set_blist_cases v lr l0 l').
@@ -274,6 +277,11 @@ Proof.
   - rewrite Hm'. auto.
   - rewrite Hm'. auto.
   - intros s1 a1 H1 K1. destruct (Z.eq_dec s1 s) as [->|Hne]; [apply Hsame in H1; destruct H1 as (-> & Ha); auto|apply Hoth in H1; eauto].
+  - intros s1 a1 l1 H1 HnX K1 G1. destruct (Z.eq_dec s1 s) as [->|Hne]; [apply Hsame in H1; destruct H1 as (-> & Ha); auto|].
+    assert (HnX0 : ~ In s1 X) by (intros Hi; apply HnX; apply HX3; auto).
+    apply Hoth in H1; [|exact Hne]. rewrite Hg' in G1. destruct (Hcases _ _ H0 G1) as [(E & ->)|(Hn & Hgo)].
+    + rewrite Hmal. apply (I_ma s1 a1 l0 H1 HnX0 K1). rewrite E. exact H0.
+    + eapply I_ma; eauto.
 Qed.
 
 Lemma put_block_eq v lr l b : get_blist v lr = Some l ->
@@ -324,10 +332,10 @@ Lemma VamInvU_alloc_region c v U X lr l b sm' mt' s a h off l1 l2 :
   meta_live (bk_meta b) = l1 ++ l2 ->
   meta_live mt' = l1 ++ new_region h off (a_size a) s (a_align a) :: l2 ->
   a_allocated a = true -> a_kind a = 1 -> a_lref a = lr -> a_blk a = bk_id b -> a_handle a = h ->
-  a_mem a = bk_mem b -> a_type a = bl_type l -> Bits.pow2 (a_align a) ->
+  a_mem a = bk_mem b -> a_type a = bl_type l -> Bits.pow2 (a_align a) -> bl_minalign l <= a_align a ->
   VamInvU c (set_alloc (put_block v lr (mkBlock (bk_id b) (bk_mem b) sm' mt')) s a) U X.
 Proof.
-  intros HI Hg Hb Hs Hdead Hmi Hsz Hgm Hl Hl' Ha Hk Hlr Hblk Hh Hmem Hty Hpow.
+  intros HI Hg Hb Hs Hdead Hmi Hsz Hgm Hl Hl' Ha Hk Hlr Hblk Hh Hmem Hty Hpow Hmina.
   set (nb := mkBlock (bk_id b) (bk_mem b) sm' mt').
   rewrite (put_block_eq _ _ _ _ Hg).
   pose proof (vi_lists _ _ _ _ HI _ _ Hg) as Hwf. pose proof (bw_nodup _ _ Hwf) as Hnd.
@@ -371,6 +379,7 @@ Proof.
     split; [exact Hnbin|]. split; [cbn; auto|]. split; [cbn; rewrite Hl'; apply in_app_iff; right; left; reflexivity|].
     cbn. repeat split; auto.
   - intros a1 H. exfalso. eapply Hnotslot; eauto.
+  - intros _ lx G1. rewrite get_blist_set_alloc, Hlr, (get_set_blist_same _ _ _ _ Hg) in G1. injection G1 as <-. exact Hmina.
 Qed.
 
 Lemma set_nth_z_same {A} (l : list A) i x : nth_z l i = Some x -> set_nth_z l i x = l.
@@ -459,6 +468,10 @@ Proof.
   - intros s1 _ H. right. auto.
   - intros a1 H _. assert (a1 = a) by (destruct H, Hsl; congruence). subst. auto.
   - intros _. eapply vi_align; eauto.
+  - intros _ lx G1. rewrite get_blist_set_alloc, Hlr in G1.
+    destruct (get_set_blist_cases v lr l (set_blocks l (replace_block (bl_blocks l) nb)) _ _ Hg G1) as [(_ & ->)|(_ & G2)].
+    + cbn. eapply (vi_minalign _ _ _ _ HI s a l); eauto. rewrite Hlr; auto.
+    + eapply (vi_minalign _ _ _ _ HI s a lx); eauto. rewrite Hlr; auto.
 Qed.
 
 (* the dangling Allocation object is finally marked unallocated *)
@@ -503,6 +516,7 @@ Proof.
     split; [apply Hoth; auto|auto].
   - intros s1 lr l b rg H1. destruct (HX1 _ H1) as (Hi & Hne). eapply I_dt2; eauto.
   - intros s1 a1 H1 K1. apply Hfw in H1. destruct H1. eauto.
+  - intros s1 a1 l1 H1 HnX K1 G1. apply Hfw in H1. destruct H1 as (H1 & Hne1). eapply I_ma; eauto. intros Hi. destruct (HX2 _ Hi); auto.
 Qed.
 
 (* ---------------------------------------------------------------- memory objects come and go *)
@@ -682,6 +696,8 @@ Proof.
   - cbn. rewrite Hmems. apply Forall_app. split; [auto|]. constructor; [|constructor].
     exact Hpos.
   - intros s a H K. apply Hsl1 in H. eauto.
+  - intros s a l1 H HnX K G. apply Hsl1 in H. rewrite Hg1 in G.
+    destruct (Hcases _ _ H0 G) as [(E & ->)|(Hne & Hgo)]; [cbn; apply (I_ma s a l H HnX K); rewrite E; exact H0|eauto].
 Qed.
 
 (* an empty block leaves list lr and its memory object is freed *)
@@ -775,6 +791,8 @@ Proof.
   - cbn. lia.
   - cbn. rewrite Hmems. apply Forall_forall. intros x Hx. rewrite Forall_forall in I_dp. apply I_dp. eapply in_remove_mem; eauto.
   - intros s a H K. apply Hsl1 in H. eauto.
+  - intros s a l1 H HnX K G. apply Hsl1 in H. rewrite Hg1 in G.
+    destruct (Hcases _ _ H0 G) as [(E & ->)|(Hne & Hgo)]; [cbn; apply (I_ma s a l H HnX K); rewrite E; exact H0|eauto].
 Qed.
 
 (* ---------------------------------------------------------------- dedicated allocations *)
@@ -876,6 +894,7 @@ Proof.
     assert (E : dm_size x' = dm_size x) by (unfold mem_key in Hkx; congruence). rewrite E.
     apply in_app_iff in Hx. destruct Hx as [Hx|[<-|[]]]; [|exact Hpos]. rewrite Forall_forall in I_dp. auto.
   - intros s1 a1 H K. destruct (Hcase _ _ H) as [(-> & ->)|(_ & H1)]; [congruence|eauto].
+  - intros s1 a1 l1 H HnX K G. rewrite Hg' in G. destruct (Hcase _ _ H) as [(-> & ->)|(_ & H1)]; [congruence|eauto].
 Qed.
 
 (* the dedicated allocation of slot s goes away: its memory object is freed and the slot becomes unallocated;
@@ -946,6 +965,7 @@ Proof.
   - lia.
   - rewrite Hmems. apply Forall_forall. intros x Hx. rewrite Forall_forall in I_dp. apply I_dp. eapply in_remove_mem; eauto.
   - intros s1 a1 S K. apply Hfw in S. destruct S. eauto.
+  - intros s1 a1 l1 S HnX1 K G. rewrite Hg' in G. apply Hfw in S. destruct S. eauto.
 Qed.
 
 (* Register: the unregistered dedicated allocations (all of list lr) are appended to the dedicated list *)
@@ -1005,6 +1025,7 @@ Proof.
   - rewrite Hm. auto.
   - rewrite Hm. auto.
   - intros s a H K. apply Hsl in H. eauto.
+  - intros s a l1 H HnX K G. rewrite Hg' in G. apply Hsl in H. eauto.
 Qed.
 
 (* ---------------------------------------------------------------- observational equality *)
@@ -1072,6 +1093,7 @@ Proof.
   - rewrite E4. auto.
   - rewrite E4. auto.
   - intros s a H K. apply Hsl in H. eauto.
+  - intros s a l1 H HnX K G. rewrite E1 in G. apply Hsl in H. eauto.
 Qed.
 
 Lemma set_blist_global0 v lr l : v_global (set_blist v lr l) = v_global v.
@@ -1258,6 +1280,8 @@ Proof.
   - exact I_nn.
   - exact I_dp.
   - intros s1 a1 S K. destruct (Hfw _ _ S) as (a0 & S0 & K0 & _ & _ & _ & _ & _ & _ & A0). rewrite <- A0. eapply I_al; eauto. congruence.
+  - intros s1 a1 l1 S HnX K G. rewrite Hg' in G. destruct (Hfw _ _ S) as (a0 & S0 & K0 & L0 & _ & _ & _ & _ & _ & A0). rewrite <- A0.
+    eapply (I_ma s1 a0 l1); eauto; congruence.
 Qed.
 
 (* ---------------------------------------------------------------- pools *)
@@ -1329,6 +1353,9 @@ Proof.
   - exact I_nn.
   - exact I_dp.
   - intros s a S K. apply Hsl in S. eauto.
+  - intros s a l S HnX K G. apply Hsl in S. destruct (Hgold _ _ G) as [(E & ->)|(_ & G0)]; [exfalso|eauto].
+    destruct (I_sl s a S HnX) as [(_ & l1 & b1 & rg & G1 & _)|(K2 & _)]; [|congruence].
+    rewrite E in G1. cbn in G1. rewrite Hfresh in G1. discriminate.
 Qed.
 
 Lemma find_remove_pool ps uid u : find_pool (remove_pool ps uid) u = if u =? uid then find_pool (remove_pool ps uid) u else find_pool ps u.
@@ -1418,4 +1445,5 @@ Proof.
   - exact I_nn.
   - exact I_dp.
   - intros s a S K. apply Hsl in S. eauto.
+  - intros s a l S HnX K G. apply Hsl in S. destruct (Hgold _ _ G). eauto.
 Qed.
